@@ -172,10 +172,10 @@ fn dt_dur() -> BoxedStrategy<Dur> {
         .boxed()
 }
 
-fn add_case() -> BoxedStrategy<AddCase> {
+pub fn add_case() -> BoxedStrategy<AddCase> {
     (gen::datetime(), dt_dur(), prop::bool::ANY, prop::bool::weighted(0.3)).prop_map(|((day, ns), dur, reject, subtract)| AddCase { day, ns, dur, reject, subtract }).boxed()
 }
-fn diff_case() -> BoxedStrategy<DiffCase> {
+pub fn diff_case() -> BoxedStrategy<DiffCase> {
     (gen::day_pair(), gen::ns_of_day(), gen::ns_of_day(), gen::unit_in(0, 9), 0u8..4)
         .prop_map(|((a, b), x, y, largest, k)| {
             // k: 0 as drawn, 1 force time order opposite to date order, 2 same date, 3 times within a ns
